@@ -74,7 +74,7 @@ th!(c18_q_recv_silent_non_eof, 10, {
     };
     forget(r);
     assert!(!verif::recv_has_pdu_to_send(&t), "nothing to transmit before EOF");
-    only_finished_may_leave(&mut t, &ch, closure);
+    assert!(t.verif_ack().is_none() && t.verif_naks().is_empty() && !t.verif_has_prompt(), "no ACK, NAK or keep-alive is ever armed");
     kani::cover!(which == 1, "prompt");
     forget(t);
     forget(ch);
@@ -98,23 +98,32 @@ fn recv_eof(closure: bool, with_md: bool, k: usize) {
         assert!(!reported_complete, "missing data or metadata: no complete delivery is reported");
         assert!(!(t.verif_delivery_code() == DeliveryCode::Complete && t.verif_condition() == Condition::NoError), "recorded outcome is not a clean complete delivery");
     }
+    assert!(t.verif_ack().is_none() && t.verif_naks().is_empty() && !t.verif_has_prompt(), "no ACK, NAK or keep-alive is ever armed");
     if !closure || !with_md {
         assert!(verif::recv_state(&t) == TransactionState::Terminated || t.verif_recv_state() == VRecvState::Cancelled, "without closure the receiver ends on EOF");
     } else if verif::recv_state(&t) != TransactionState::Terminated {
         assert!(verif::recv_has_pdu_to_send(&t), "closure: Finished is due");
+        match t.verif_finished() {
+            Some((f, true)) => assert!(
+                f.condition == t.verif_condition() && f.delivery_code == t.verif_delivery_code() && f.file_status == t.verif_file_status(),
+                "Finished carries the recorded outcome"
+            ),
+            _ => assert!(false, "Finished armed"),
+        }
     }
-    only_finished_may_leave(&mut t, &ch, closure && with_md);
     kani::cover!(complete && reported_complete, "clean delivery");
     kani::cover!(!complete, "incomplete at EOF");
     forget(t);
     forget(ch);
 }
-//# funcs=RecvTransaction::process_pdu(EoF) unacknowledged,check_file_size,finalize_receive,verify_checksum,finalize_file,prepare_finished,shutdown; bound=4-byte file, 1 held segment (symbolic sub-range), content+checksum symbolic, closure on/off; stubs=S1,S2,S3,S5
-th!(c18_q_recv_eof_k1, 12, { recv_eof(kani::any(), true, 1) });
+//# funcs=RecvTransaction::process_pdu(EoF) unacknowledged,check_file_size,finalize_receive,verify_checksum,finalize_file,prepare_finished,shutdown; bound=4-byte file, 1 held segment (symbolic sub-range), content+checksum symbolic, closure off; stubs=S1,S2,S3,S5
+th!(c18_q_recv_eof_k1, 12, { recv_eof(false, true, 1) });
+//# funcs=RecvTransaction::process_pdu(EoF) unacknowledged with closure requested,prepare_finished; bound=as above; stubs=S1,S2,S3,S5
+th!(c18_q_recv_eof_k1_closure, 12, { recv_eof(true, true, 1) });
 //# funcs=RecvTransaction::process_pdu(EoF) unacknowledged; bound=metadata missing, 0 held segments; stubs=S1,S2,S3,S5
 th!(c18_q_recv_eof_no_metadata, 12, { recv_eof(false, false, 0) });
 //# funcs=RecvTransaction::process_pdu(EoF) unacknowledged; bound=no data received at all for a 4-byte file, closure on/off; stubs=S1,S2,S3,S5
-th!(c18_t_recv_eof_k0, 12, { recv_eof(kani::any(), true, 0) });
+th!(c18_t_recv_eof_k0, 12, { recv_eof(true, true, 0) });
 
 fn unack_sender(closure: bool, ch: &Chans) -> SendTransaction<ModelFs> {
     link_libc();
@@ -130,10 +139,12 @@ th!(c18_q_send_eof_closure, 8, {
     let ch = chans();
     let closure: bool = kani::any();
     let mut t = unack_sender(closure, &ch);
-    match send_send(&mut t, &ch) {
+    let out8 = send_send(&mut t, &ch);
+    match &out8 {
         Some((_, PDU { payload: PDUPayload::Directive(Operations::EoF(_)), .. })) => {}
         _ => assert!(false, "EOF expected"),
     }
+    forget(out8);
     if closure {
         assert!(verif::send_state(&t) != TransactionState::Terminated, "closure requested: the sender waits for Finished");
         assert!(verif::ind_count_kind(verif::K_FINISHED) == 0, "no outcome reported before Finished arrives");
@@ -160,5 +171,34 @@ th!(c18_q_send_finished_closure, 8, {
     assert!(codes >> 8 == cond as u64 && (codes >> 4) & 0xF == dc as u64 && n == 0, "the receiver's outcome is reported to the user");
     kani::cover!(true, "end");
     forget(t0);
+    forget(ch);
+});
+
+//# funcs=RecvTransaction::send_pdu(Finished) unacknowledged with closure,send_finished; bound=receiver after EOF with closure requested (outcome codes symbolic): exactly one Finished with the recorded outcome leaves; stubs=S1,S2,S3
+th!(c18_q_recv_closure_sends_finished, 10, {
+    let ch = chans();
+    verif::set_now(Duration::from_secs(NOW));
+    let mut p = recv_parts(config(U), NakProcedure::Deferred(Duration::ZERO), &ch);
+    p.metadata = Some(metadata(false, 0, true, ChecksumType::Modular, vec![]));
+    p.recv_state = VRecvState::Finished;
+    p.condition = any_condition();
+    p.delivery_code = if kani::any() { DeliveryCode::Complete } else { DeliveryCode::Incomplete };
+    p.finished = Some((
+        Finished { condition: p.condition, delivery_code: p.delivery_code, file_status: FileStatusCode::Unreported, filestore_response: vec![], fault_location: None },
+        true,
+    ));
+    let mut t = RecvTransaction::verif_from_parts(p);
+    let out = recv_send(&mut t, &ch);
+    match &out {
+        Some((dest, PDU { payload: PDUPayload::Directive(Operations::Finished(f)), header })) => {
+            assert!(*dest == VariableID::from(SRC_ID) && header.direction == Direction::ToSender);
+            assert!(f.condition == t.verif_condition() && f.delivery_code == t.verif_delivery_code(), "the true outcome");
+        }
+        _ => assert!(false, "Finished expected"),
+    }
+    forget(out);
+    assert!(!verif::recv_has_pdu_to_send(&t));
+    kani::cover!(true, "end");
+    forget(t);
     forget(ch);
 });
